@@ -24,57 +24,19 @@ Proof.
   destruct ((-7 <=? i) && (i <? 7)); reflexivity.
 Qed.
 
-(* the part of the constructor that does not look at the weekday argument *)
-Lemma mk_set_wd_shape : forall k w n,
-  exists body : option wdv -> res rd,
-    (forall w' n', mk (set_wd k (WObj w' n')) = body (Some (w', n'))) /\
-    (forall x y, match body x, body y with
-                 | Ok dx, Ok dy => rel dx = rel dy /\ leapdays dx = leapdays dy /\ ab dx = ab dy /\
-                                   wd dx = x /\ wd dy = y
-                 | Err e, Err e' => e = e'
-                 | _, _ => False
-                 end) /\ mk (set_wd k (WObj w n)) = body (Some (w, n)).
+(* weekday(n) with n absent, 0 or +1: the constructed deltas are equal (and both constructions
+   succeed or fail together).  The proof does not spell out the yearday / nlyearday part of the
+   constructor: it is the same term on both sides. *)
+Lemma default_n_same_key : forall n1 n2, n_is_default n1 = true -> n_is_default n2 = true ->
+  py_or n1 1 = py_or n2 1.
 Proof.
-  intros k w n.
-  exists (fun wv =>
-    let r := k_rel k in
-    let r := mkrel (f_years r) (f_months r) (f_days r + k_weeks k * 7) (f_hours r)
-                   (f_minutes r) (f_seconds r) (f_us r) in
-    let '(yday, leap) :=
-      match truthy (k_nlyearday k) with
-      | Some v => (v, k_leapdays k)
-      | None => match truthy (k_yearday k) with
-                | Some v => (v, if (59 <? v) && (v <? 366) then -1 else k_leapdays k)
-                | None => (0, k_leapdays k)
-                end
-      end in
-    if yday =? 0 then Ok (fix_rd (mkrd r leap (k_abs k) wv))
-    else match yday_lookup ydayidx 0 0 yday with
-         | None => Err EValue
-         | Some (mo, dd) =>
-             let a := k_abs k in
-             Ok (fix_rd (mkrd r leap
-                   (mkabs (a_year a) (Some mo) (Some dd) (a_hour a) (a_minute a) (a_second a) (a_us a)) wv))
-         end).
-  split; [| split].
-  - intros w' n'. reflexivity.
-  - intros x y. cbv zeta.
-    destruct (match truthy (k_nlyearday k) with
-              | Some v => (v, k_leapdays k)
-              | None => match truthy (k_yearday k) with
-                        | Some v => (v, if (59 <? v) && (v <? 366) then -1 else k_leapdays k)
-                        | None => (0, k_leapdays k)
-                        end
-              end) as [yday leap].
-    destruct (yday =? 0).
-    + unfold fix_rd. cbn [rel leapdays ab wd]. repeat split.
-    + destruct (yday_lookup ydayidx 0 0 yday) as [[mo dd]|]; [| reflexivity].
-      unfold fix_rd. cbn [rel leapdays ab wd]. repeat split.
-  - reflexivity.
+  intros [v1|] [v2|]; cbn [n_is_default py_or]; intros H1 H2; try reflexivity.
+  - destruct (Z.eqb_spec v1 0), (Z.eqb_spec v2 0), (Z.eqb_spec v1 1), (Z.eqb_spec v2 1);
+      cbn [orb] in *; try discriminate; lia.
+  - destruct (Z.eqb_spec v1 0), (Z.eqb_spec v1 1); cbn [orb] in *; try discriminate; lia.
+  - destruct (Z.eqb_spec v2 0), (Z.eqb_spec v2 1); cbn [orb] in *; try discriminate; lia.
 Qed.
 
-(* weekday(n) with n absent, 0 or +1: the constructed deltas are equal (and both constructions
-   succeed or fail together) *)
 Theorem mk_weekday_n_forms : forall k w n1 n2,
   n_is_default n1 = true -> n_is_default n2 = true ->
   match mk (set_wd k (WObj w n1)), mk (set_wd k (WObj w n2)) with
@@ -83,18 +45,16 @@ Theorem mk_weekday_n_forms : forall k w n1 n2,
   | _, _ => False
   end.
 Proof.
-  intros k w n1 n2 H1 H2.
-  destruct (mk_set_wd_shape k w n1) as (body & Hb & Hs & _).
-  rewrite !Hb. specialize (Hs (Some (w, n1)) (Some (w, n2))).
-  destruct (body (Some (w, n1))) as [d1|e1], (body (Some (w, n2))) as [d2|e2]; try assumption.
-  destruct Hs as (Hr & Hl & Ha & Hw1 & Hw2).
-  apply eqb_iff_hash_key, key_of_parts; try assumption.
-  rewrite Hw1, Hw2. cbn [hash_wd]. f_equal. f_equal.
-  destruct n1 as [v1|], n2 as [v2|]; cbn [n_is_default py_or] in *; try reflexivity.
-  - destruct (Z.eqb_spec v1 0), (Z.eqb_spec v2 0), (Z.eqb_spec v1 1), (Z.eqb_spec v2 1);
-      cbn [orb] in *; try discriminate; lia.
-  - destruct (Z.eqb_spec v1 0), (Z.eqb_spec v1 1); cbn [orb] in *; try discriminate; lia.
-  - destruct (Z.eqb_spec v2 0), (Z.eqb_spec v2 1); cbn [orb] in *; try discriminate; lia.
+  intros k w n1 n2 H1 H2. pose proof (default_n_same_key n1 n2 H1 H2) as K.
+  unfold mk, set_wd, bind.
+  cbn [k_wd k_rel k_leapdays k_weeks k_abs k_yearday k_nlyearday conv_wd].
+  match goal with |- context [match ?m with pair _ _ => _ end] => destruct m as [yday leap] end.
+  destruct (yday =? 0).
+  - apply eqb_iff_hash_key, key_of_parts; unfold fix_rd; cbn [rel leapdays ab wd hash_wd];
+      try reflexivity. rewrite K. reflexivity.
+  - destruct (yday_lookup ydayidx 0 0 yday) as [[mo dd]|]; [| reflexivity].
+    apply eqb_iff_hash_key, key_of_parts; unfold fix_rd; cbn [rel leapdays ab wd hash_wd];
+      try reflexivity. rewrite K. reflexivity.
 Qed.
 
 (* weeks=w is days=7*w *)
